@@ -46,6 +46,12 @@ theorem sumLoop_spec {α} (xs : List α) (f : α → OCtx → Nat × OCtx) (P : 
   · exact absurd h' (by simp)
   · exact h'
 
+theorem sumLoop_spec' {α} (xs : List α) (f : α → OCtx → Nat × OCtx) (P : OCtx → Prop) (Q : α → Prop) (R : Prop)
+    (hf : ∀ x ∈ xs, ∀ c, P c → P (f x c).2 ∧ (0 < (f x c).1 → Q x)) (hR : ∀ x ∈ xs, Q x → R) (c : OCtx) (hc : P c) :
+    P (sumLoop xs f c).2 ∧ (0 < (sumLoop xs f c).1 → R) := by
+  obtain ⟨a, b⟩ := sumLoop_spec xs f P Q hf c hc
+  exact ⟨a, fun h => by obtain ⟨x, hx, hq⟩ := b h; exact hR x hx hq⟩
+
 /-! ### field maps -/
 
 /-- every entry of the field map satisfies `P` (with its response name) -/
